@@ -34,6 +34,29 @@ CHECKS = {
              text="Model checking + conformance over rejection class x argument position x destination state x driver.", ref="DESIGN 5 (C16)",
              note=NS_NOTE),
 }
+DP_NOTE = ("Trusted: the libfs hooks (they only shorten requests / force errno / emulate a clone, they never report), the kernel's "
+           "copy_file_range/lseek/FIEMAP semantics as abstracted in XcpData.tla, the cell-pattern reader. Bounds: files of <= 4 (quick) / 6 "
+           "(thorough) cells in the exhaustive model; conformance covers what is run.")
+CHECKS.update({
+ "C01": dict(tech="TLA+ model XcpData (create/allocate/clone/seek walk/extent->block jobs, every kernel count, any job order) checked by TLC; "
+                  "TLC-enumerated initial states replayed into the real binary, destination cells judged by the TLC trace spec Trace_Data",
+             text="Exhaustive model checking of the single-file copy design and spec-to-implementation replay of its scenario space "
+                  "(layout x block size x driver x reflink x prior destination) plus byte-granular block-boundary sizes; thorough adds a 2 GiB+ file.",
+             ref="DESIGN 5 (C01)", note=DP_NOTE),
+ "C05": dict(tech="XcpData with nondeterministic short counts at every call and user-space fallback, checked by TLC; real runs with clamp/errno "
+                  "plans driven through the cfg(xcp_verif) hooks (and strace for EINTR), plus the build without the Linux backend; judged by Trace_Data",
+             text="Model checking over every legal short-count sequence within bounds + conformance under systematic and seeded clamp plans.",
+             ref="DESIGN 5 (C05)", note=DP_NOTE),
+ "C11": dict(tech="TLC invariant HolesStayHoles on XcpData + real sparse copies (1 MiB cells, >32 extents, pre-allocated destinations) with "
+                  "st_blocks / SEEK_DATA maps judged by Trace_Data (allocation, containment, growth form)",
+             text="Model checking of destination allocation in every state + conformance on real sparse files on ext4.", ref="DESIGN 5 (C11)",
+             note=DP_NOTE + " Needs a filesystem with SEEK_DATA/SEEK_HOLE and FIEMAP (ext4 here)."),
+ "C19": dict(tech="merge_extents transcribed to TLA+ (XcpMerge) and checked by TLC on ALL sorted extent lists within bounds; every list replayed "
+                  "into the real function through the API probe; map_extents/segment walks on real files; all judged by the TLC trace spec Trace_Merge",
+             text="Exhaustive (bounded) model checking of the merge contract and exhaustive replay of the same lists into the implementation; "
+                  "file-level coverage oracle (no non-zero byte outside reported ranges).", ref="DESIGN 5 (C19)",
+             note="Trusted: the probe crate (thin calls of the public libfs API), the non-zero-run scanner. Bounds: offsets 0..8/10, <= 3/4 extents."),
+})
 hooks_commits = subprocess.run(["git", "-C", "/repo", "log", "--format=%h", "--grep=^verif hooks"], stdout=subprocess.PIPE, text=True).stdout.split()
 m = {"version": 1,
      "setup_cmd": "cd /verif && python3 tools/setup.py",
